@@ -14,6 +14,5 @@ import (
 func init() {
 	overlayHooks = func() {
 		httputil.SimHook = kernel.HookSite
-		httputil.SimSync = kernel.SimSync
 	}
 }
